@@ -117,7 +117,28 @@ def known_case():
     return None
 
 
+def limit_off_case():
+    """with the column-72 limit switched off, code beyond column 72 is code: the same statements as the free-form rendering"""
+    long_decl = "      integer :: first_counter, second_counter, third_counter, fourth_counter, fifth_counter"
+    assert len(long_decl) > 80
+    fixed = "      module wide\n" + long_decl + "\n      end module wide\n"
+    free = "module wide\ninteger :: first_counter, second_counter, third_counter, fourth_counter, fifth_counter\nend module wide\n"
+    a, b = read(free, False), read(fixed, True, False)
+    if a != b:
+        return {"confirmed": True, "input": {"fixed": fixed, "length_limit": False}, "actual": b, "expected": a,
+                "how": "real FortranReader(fixed=True, length_limit=False) on a declaration that runs past column 72"}
+    # ... and with the limit on, the same line is cut at column 72
+    c = read(fixed, True, True)
+    if c == a:
+        return {"confirmed": True, "input": {"fixed": fixed, "length_limit": True}, "actual": c, "expected": "text beyond column 72 ignored",
+                "how": "real FortranReader(fixed=True, length_limit=True)"}
+    return None
+
+
 def search(seed=0):
+    hit = limit_off_case()
+    if hit:
+        return hit
     n = 0
     for docs, breaks, cont_char, comment_style, seqfield, inline_doc in cases(seed):
         if seqfield and inline_doc:
